@@ -76,6 +76,9 @@ type SymCtx struct {
 
 // NewSymCtx derives the keys for one side. isClient selects which key set is used for sending.
 func NewSymCtx(p *Policy, mode int, clientNonce, serverNonce []byte, isClient bool, channelID, tokenID uint32) *SymCtx {
+	if p == nil || mode == 0 {
+		mode = ModeNone
+	}
 	s := &SymCtx{P: p, Mode: mode, ChannelID: channelID, TokenID: tokenID}
 	if p != nil && mode != ModeNone {
 		c, sv := p.DeriveKeys(clientNonce, serverNonce)
